@@ -18,7 +18,7 @@ RULE = ('room = 2..6 base stations with arbitrary distinct ids 0..15 at 1.5-4 m 
         'constellations. distinct_nontrivial = distinct rooms (seed, drop-out pattern) that went through the full pipeline.')
 ASSUMPTIONS = ['visibility model: all four sensors within +-60 deg horizontal / +-50 deg vertical of the base station and '
                'the base station above the deck plane', 'measurements are exact (float64) V1 sweep angles']
-REQUIRED = ['mon.rooms_solved', 'mon.bs_poses_compared', 'mon.cf_poses_compared', 'mon.matcher_groups_checked',
+REQUIRED = ['mon.rooms_solved_again_with_the_samples_in_another_order', 'mon.rooms_solved', 'mon.bs_poses_compared', 'mon.cf_poses_compared', 'mon.matcher_groups_checked',
             'mon.unlinkable_rooms', 'mon.partial_visibility_rooms', 'mon.tight_time_layouts', 'mon.matcher_streams',
             'mon.matcher_streams_with_pause_shorter_than_window', 'mon.rooms_with_windows_of_three_base_stations', 'mon.axis_aligned_rooms',
             'mon.pose_averages_of_near_identical_estimates_checked', 'mon.chain_visibility_rooms', 'mon.chain_rooms_walked_back_and_forth']
@@ -37,7 +37,7 @@ def pose_err(R_est, t_est, R_true, t_true):
     return float(np.linalg.norm(np.asarray(t_est) - t_true)), lhgen.rot_angle(R_true.T @ np.asarray(R_est))
 
 
-def run_room(ctx, rseed, mode):
+def run_room(ctx, rseed, mode, order=None):
     import numpy as np
     from cflib.localization.lighthouse_bs_vector import LighthouseBsVector, LighthouseBsVectors
     from cflib.localization.lighthouse_geometry_solver import LighthouseGeometrySolver
@@ -72,6 +72,12 @@ def run_room(ctx, rseed, mode):
         rm = lhgen.room(rseed)
         drop = 0.0 if mode == 'full' else rnd.choice((0.2, 0.4))
         vis = lhgen.visibility(rm, partial_seed=rseed + 1, drop=drop)
+    if order is not None:
+        # the same recording with its samples in another order (solved right after the first one, in the same process)
+        n_ = len(rm['cf'])
+        perm = list(range(n_))[::-1] if order == 'reversed' else [(k_ + n_ // 2) % n_ for k_ in range(n_)]
+        rm = dict(rm, cf=[rm['cf'][k_] for k_ in perm])
+        vis = [vis[k_] for k_ in perm]
     if mode == 'unlinkable':
         if len(rm['ids']) < 4:
             return 'skip'
@@ -355,6 +361,9 @@ def run(desc, ctx):
             tries += 1
             rseed += 7919
             r = run_room(ctx, rseed, mode)
+        if isinstance(r, tuple) and mode in ('partial', 'windows', 'chain'):
+            ctx.count('mon.rooms_solved_again_with_the_samples_in_another_order')
+            run_room(ctx, rseed, mode, order=('reversed', 'rotated')[(j + rseed) % 2])
         if isinstance(r, tuple):
             worst = (max(worst[0], r[0]), max(worst[1], r[1]))
             first = first or {'room_seed': rseed, 'mode': mode, 'n_bs': r[2], 'n_samples': r[3],
